@@ -239,6 +239,19 @@ def guards_before_first_write(ctx, f: FuncInfo, required: typing.Dict[str, typin
       writes.append(node.id)
   if not writes:
     raise AnalysisError(f"{f.qualname}: no state write found (anchor changed shape)")
+  # a write made under `<parameter> is None` handles the "nothing given" case: there is nothing for the guards to check
+  from . import match as _match
+
+  def under_none_case(st):
+    child, par = st, _parent(st)
+    while par is not None and par is not f.node:
+      if isinstance(par, ast.If):
+        isn = _match.is_none_test(par.test, lambda e: isinstance(e, ast.Name) and e.id in f.params)
+        if isn is not None and ((isn and any(child is x for x in par.body)) or (not isn and any(child is x for x in par.orelse))):
+          return True
+      child, par = par, _parent(par)
+    return False
+  writes = [w for w in writes if not under_none_case(cfg.nodes[w].ast)] or writes
   single = {}
   for st in own_nodes(f.node):
     if isinstance(st, ast.Assign) and len(st.targets) == 1 and isinstance(st.targets[0], ast.Name):
